@@ -53,6 +53,36 @@ class Facts:
     def body(self, key):
         return self.bodies.get(key)
 
+    def only_inlined(self, b):
+        """b is a crate-private function or method (not `pub`, or a method of a private trait)
+        that, after inlining, no body calls or mentions as a value any more: each of its uses is
+        analysed in place, in its caller's context, so obligations that depend on the caller's
+        guards (a precondition `i < len`) are judged there and not on the helper alone"""
+        if b.kind not in ("Fn", "AssocFn") or b.d.get("vis_pub") or b.in_tests():
+            return False
+        if getattr(self, "_still_called", None) is None:
+            called = set()
+            for x in self.bodies.values():
+                for blk in x.blocks:
+                    t = blk["term"]
+                    if t["k"] != "call":
+                        continue
+                    ce = t.get("callee") or {}
+                    if ce.get("key"):
+                        called.add(ce["key"])
+                    if (ce.get("resolved") or {}).get("key"):
+                        called.add(ce["resolved"]["key"])
+                    for a in t.get("args", []):
+                        if a.get("k") == "const" and a.get("fn"):
+                            called.add(a["fn"].get("key"))
+                            if (a["fn"].get("resolved") or {}).get("key"):
+                                called.add(a["fn"]["resolved"]["key"])
+                    if t.get("func", {}).get("k") == "const" and t["func"].get("fn"):
+                        called.add(t["func"]["fn"].get("key"))
+            self._still_called = called
+            self._inlined_somewhere = {p for x in self.bodies.values() for p in x.d.get("inlined", [])}
+        return b.key not in self._still_called and b.path in self._inlined_somewhere
+
     def methods_of_trait(self, trait, name=None):
         """All local bodies that are methods in `impl <trait> for ...` (trait = last path segment
         or full path)."""
